@@ -219,4 +219,14 @@ def positional : List String → Positional → Positional
           | none => positional ws { acc with args := acc.args ++ [w] }
     else positional ws { acc with args := acc.args ++ [w] }
 
+/-- `Analyzer::analyze_recipe` and the parser on parameter lists: a variadic parameter is last, and no requiredCount
+parameter follows a defaulted one -/
+def validParams : List Param → Bool
+  | [] => true
+  | p :: ps =>
+    (if p.isVariadic then ps.isEmpty else true) &&
+    (if p.default.isSome then ps.all (fun q => q.default.isSome || q.kind = .star) else true) &&
+    validParams ps
+
+
 end Just.Args
